@@ -17,6 +17,8 @@ EXC_SRC = {
     # exceptions that derive from BaseException only
     "CustomBase": "type('MyBaseError', (BaseException,), {})('base-msg')",
     "GeneratorExit": "GeneratorExit('gen-exit')",
+    # a message that cannot be encoded as UTF-8 (lone surrogate, e.g. from an os.fsdecode()d file name)
+    "Surrogate": "ValueError('bad \\udcff name')",
 }
 EXC_TEXT = {
     "ValueError": ("ValueError", "boom-x"),
@@ -25,6 +27,7 @@ EXC_TEXT = {
     "SystemExit": ("SystemExit", "3"),
     "CustomBase": ("MyBaseError", "base-msg"),
     "GeneratorExit": ("GeneratorExit", "gen-exit"),
+    "Surrogate": ("ValueError", "bad \\udcff name"),
 }
 
 BODY_RAISES = '''
@@ -409,7 +412,68 @@ class EndCbScn:
         return None, outcome
 
 
-SCENARIOS = {"err": ErrScn, "endcb": EndCbScn}
+class CrashAfterErrScn:
+    """the remote failure has arrived but was not consumed yet when the connection is lost abruptly: the
+    channel still reports its items and its RemoteError (then EOF), not the connection's EOFError instead"""
+
+    @staticmethod
+    def scenario(w, P):
+        from engine import vworld
+
+        S = Session(w, P.get("transport", "popen"), "thread")
+
+        def main():
+            gw = S.open()
+            em = S.proc.execmodel
+            ch = gw.remote_exec(BODY_RAISES.format(spec={"i": P["i"]}, exc=EXC_SRC["ValueError"]))
+            other = gw.remote_exec("channel.send(1)\nchannel.receive()")
+            w.exploring = True
+            for _ in range(200):
+                if ch.isclosed():
+                    break
+                em.sleep(0.05)
+            vworld.signal_proc(S.worker_proc(), 9)
+            em.sleep(1.0)
+            got, errs = [], []
+            for _ in range(P["i"] + 3):
+                try:
+                    if P["how"] == "receive":
+                        got.append(ch.receive(timeout=5))
+                    else:
+                        ch.waitclose(5)
+                        errs.append(("returned", ""))
+                except ch.RemoteError as e:
+                    errs.append(("RemoteError", "boom-x" in str(e)))
+                except EOFError:
+                    errs.append(("EOFError", ""))
+                except BaseException as e:  # noqa: BLE001
+                    errs.append((type(e).__name__, str(e)[:60]))
+                    break
+            w.exploring = False
+            w.observe("late", got, errs)
+            w.observe("main-done")
+            S.group.terminate(timeout=2.0)
+
+        S.main(main)
+        return S
+
+    @staticmethod
+    def oracle(w, S, P):
+        obs = w.obs
+        late = [e for e in obs if e[0] == "late"]
+        if ("main-done",) not in obs or not late:
+            return ("c07:hang", f"obs={obs} blocked={w.blocked_at_end}"), 0
+        got, errs = late[0][1], late[0][2]
+        if P["how"] == "receive" and got != [(7, k) for k in range(P["i"])]:
+            return ("c07:items-before-error", f"P={P}: items {got}"), 0
+        if not errs or errs[0] != ("RemoteError", True):
+            return ("c07:error-replaced-by-eof", f"P={P}: the remote failure had arrived before the connection was lost, but the channel reported {errs} (items {got})"), 0
+        if sum(1 for e in errs if e[0] == "RemoteError") != 1:
+            return ("c07:error-not-once", f"P={P}: {errs}"), 0
+        return None, 1
+
+
+SCENARIOS = {"err": ErrScn, "endcb": EndCbScn, "crashafter": CrashAfterErrScn}
 
 
 def stmt_pred(m, q, l):
@@ -422,7 +486,7 @@ def cases(tier):
         for n, i in ((2, 0), (2, 1), (2, 2)) if tier == "quick" else ((0, 0), (2, 0), (2, 1), (2, 2), (3, 3)):
             if kind == "body" and i > n:
                 continue
-            for exc in ("ValueError", "Custom", "ZeroDivisionError", "SystemExit", "CustomBase", "GeneratorExit"):
+            for exc in ("ValueError", "Custom", "ZeroDivisionError", "SystemExit", "CustomBase", "GeneratorExit", "Surrogate"):
                 if exc in ("SystemExit", "CustomBase", "GeneratorExit") and kind != "body":
                     continue
                 if tier == "quick" and exc == "GeneratorExit":
@@ -470,6 +534,13 @@ def run(tier: str, only=None) -> int:
             for rc in ({"py3str_as_py2str": True}, {"py2str_as_py3str": False}, {"py3str_as_py2str": True, "py2str_as_py3str": False}):
                 P3 = dict(C, transport="popen", backend="thread", reconf=rc)
                 harness.run_exploration(rep, PID, f"{name}/reconf:{'+'.join(sorted(rc))}", ErrScn, P3, {"ps": 1, "free": 0}, max_execs=cap)
+    for how in ("receive", "waitclose"):
+        for i in (0, 2):
+            for tr in ("popen", "socket", "via"):
+                name = f"crashafter/{how}:i{i}:{tr}"
+                if only and only not in name:
+                    continue
+                harness.run_exploration(rep, PID, name, CrashAfterErrScn, {"how": how, "i": i, "transport": tr}, {"ps": 1, "free": 0}, max_execs=cap)
     # a callback failing on its ENDMARKER, on either side
     for side in ("init", "worker"):
         for n in (0, 2):
